@@ -94,6 +94,12 @@ def enumerate_cases(tier):
         _wire, bits = protected_bits(seed_bundle(idx))
         for pos in range(0, len(bits), chunk):
             yield {'kind': 'input', 'seed_bundle': idx, 'faults': [[b, 1] for b in bits[pos:pos + chunk]]}
+    # every other value of every protected octet (all error patterns confined to one octet, among them the ones that
+    # turn one CBOR item into another item of the same length: uint 1 <-> true, uint 0 <-> false, ...)
+    for idx in range(3 if tier == 'quick' else 40):
+        _wire, bits = protected_bits(seed_bundle(idx))
+        for first in bits[::8]:
+            yield {'kind': 'input', 'seed_bundle': idx, 'faults': [[first, 8, pattern] for pattern in range(1, 256)]}
 
 
 @st.composite
@@ -171,8 +177,14 @@ def run_input(case, out):
         bad = apply_fault(wire, fault)
         if bad == wire:
             continue
+        if _giant_head(bad, fault[0] // 8, fault[1]):
+            # a head that now announces millions of octets / items: the decoding libraries allocate what is announced
+            # (gigabytes, or an abort of the process under the harness memory limit) before the bundle is dropped;
+            # kept out for the cost, counted
+            out.excluded.append('giant-announced-length')
+            continue
         out.count('corruptions_fed')
-        out.count('single_bit_flips' if fault[1] == 1 else 'bursts')
+        out.count('single_bit_flips' if fault[1] == 1 else ('octet_substitutions' if len(case['faults']) == 255 else 'bursts'))
         n_rec, n_sent, n_seen = len(node.records(False)), len(node.sent()), len(node.agent._seen_bundle_ident)
         node.receive(bad)
         decodes = True
@@ -213,6 +225,20 @@ def run_input(case, out):
         out.fail('pristine-ignored-after-corrupt', 'after the corrupted copies the pristine bundle is ignored (already recorded as seen?)')
     out.nontrivial = nontrivial
     out.label('input', 'faults:%s' % ('1bit' if all(f[1] == 1 for f in case['faults']) else 'burst'))
+
+
+def _giant_head(data, octet, width_bits):
+    ''' Does an octet touched by the fault read as a CBOR head with a 4- or 8-octet argument of 2^22 or more? '''
+    for pos in range(octet, min(len(data), octet + (width_bits + 14) // 8)):
+        info = data[pos] & 0x1f
+        size = {26: 4, 27: 8}.get(info)
+        if size and int.from_bytes(data[pos + 1:pos + 1 + size].ljust(size, b'\x00'), 'big') >= 2 ** 22:
+            return True
+        if data[pos] in (0xc2, 0xc3) and pos + 1 < len(data) and data[pos + 1] >> 5 == 2 and (data[pos + 1] & 0x1f) >= 3:
+            # a bignum tag in front of a byte string: an integer of 2^16 and more where a byte string is expected is
+            # turned into that many zero octets (scapy_cbor BstrField.m2i: bytes(int)) - minutes and gigabytes
+            return True
+    return False
 
 
 def _locate(bundle, wire, octet):
